@@ -298,9 +298,19 @@ class AssignBase(StatementBase):
         get_deps = self.get_dependency_mapper()
 
         def get_vars(expr):
-            return frozenset(dep.name for dep in get_deps(self.rhs))
+            return frozenset(dep.name for dep in get_deps(expr))
 
-        result = get_vars(self.rhs) | get_vars(self.lhs)
+        result = result | get_vars(self.rhs)
+
+        # The assignee itself is written, not read, but the variables in
+        # its subscript are read.
+        from pymbolic.primitives import Subscript
+        if isinstance(self.lhs, Subscript):
+            index = self.lhs.index
+            if not isinstance(index, tuple):
+                index = (index,)
+            for index_i in index:
+                result = result | get_vars(index_i)
 
         return result
 
